@@ -64,6 +64,11 @@ def enumerate_cases(tier, seed):
   for bits in (2, 3, 4):
     for mv in (None, 1.0, 4.0):
       out.append(dict(fam="po2", cls="quantized_po2", bits=bits, max_value=mv, slope=0.0))
+      # quadratic approximation: exponents are restricted to even numbers; the inference-phase equality with the
+      # round-to-nearest configuration is judged for every answer, the training phase only for code membership
+      out.append(dict(fam="po2", cls="quantized_po2", bits=bits, max_value=mv, slope=0.0, quad=True))
+      if bits <= 3:
+        out.append(dict(fam="po2", cls="quantized_relu_po2", bits=bits, max_value=mv, slope=0.0, quad=True))
       for slope in (0.0, 0.5):
         if bits <= 3:
           out.append(dict(fam="po2", cls="quantized_relu_po2", bits=bits, max_value=mv, slope=slope))
@@ -251,10 +256,12 @@ class Po2(_Model):
   def make(self, stochastic=True):
     from qkeras import quantizers as Q  # pylint: disable=import-outside-toplevel
     c = self.c
+    quad = bool(c.get("quad"))
     if c["cls"] == "quantized_po2":
-      return Q.quantized_po2(bits=c["bits"], max_value=c["max_value"], use_stochastic_rounding=stochastic)
+      return Q.quantized_po2(bits=c["bits"], max_value=c["max_value"], use_stochastic_rounding=stochastic,
+                             quadratic_approximation=quad)
     return Q.quantized_relu_po2(bits=c["bits"], max_value=c["max_value"], negative_slope=c["slope"],
-                                use_stochastic_rounding=stochastic)
+                                use_stochastic_rounding=stochastic, quadratic_approximation=quad)
 
   def x(self):
     vals = []
@@ -277,6 +284,8 @@ class Po2(_Model):
   def answers(self, x, idx, k):
     """Answer tensor in the value domain [2^l, 2^r) placed around y (the filtered magnitude)."""
     y = self._filter(self._mags(x)[idx])
+    if self.c.get("quad"):
+      y = np.sqrt(y)          # the implementation rounds log2 of sqrt(x) and doubles the exponent
     safe = np.where(y > 0, y, 1.0)
     l = np.floor(np.log2(safe))
     exact = 2.0 ** l == safe
@@ -406,6 +415,8 @@ def run_rounding(c, tf, viol_add):
         viol_add("training:not-a-code", "x=%r -> %r is not a power of two (answers %r)" % (float(x[i]), float(y[i]), ks), "")
         continue
       e = ex - 1
+      if c.get("quad"):
+        continue
       xs = x.astype(np.float64)
       if c["cls"] == "quantized_po2":
         idx_of = np.zeros(x.shape, dtype=int)
